@@ -4,13 +4,17 @@ pub mod c01;
 pub mod c02;
 pub mod c03;
 pub mod c04;
+pub mod c05;
 pub mod c06;
 pub mod c07;
 pub mod c08;
 pub mod c11;
 pub mod c12;
+pub mod c18;
+pub mod diag;
 
 use crate::PropDef;
+pub use c04::gen_data as c04_gen_data;
 
 fn def(
     id: &'static str,
@@ -34,10 +38,12 @@ pub fn registry() -> Vec<PropDef> {
         def("C02", 2, c02::case, None, true),
         def("C03", 3, c03::case, None, true),
         def("C04", 4, c04::case, None, true),
+        def("C05", 5, c05::case, None, true),
         def("C06", 6, c06::case, Some(c06::golden), true),
         def("C07", 7, c07::case, None, true),
         def("C08", 8, c08::case, None, true),
         def("C11", 11, c11::case, None, true),
         def("C12", 12, c12::case, Some(c12::advertised), true),
+        def("C18", 18, c18::case, None, true),
     ]
 }
